@@ -28,6 +28,7 @@ type RunOut struct {
 	V       *Violation
 	X       *X
 	Digest  string
+	RDigest string // observable events only
 	Harness string // non-empty: the harness itself failed (infrastructure, exit 2)
 }
 
@@ -57,6 +58,7 @@ func RunWorld(sc *Scenario, w *World, replay bool, trace bool) (out RunOut) {
 		out.V = sc.Run(x)
 	}()
 	out.Digest = x.Finish()
+	out.RDigest = x.RDig
 	if out.V != nil {
 		out.V.Prop = sc.ID
 	}
@@ -67,9 +69,9 @@ func RunWorld(sc *Scenario, w *World, replay bool, trace bool) (out RunOut) {
 // becomes a self-contained replay file.
 func Finalize(w *World, out RunOut) {
 	w.Dec = out.X.Dec.Rec.Trim()
-	w.Digest = out.Digest
+	w.Digest, w.RDigest = out.Digest, out.RDigest
 	if w.Params["volatile"] == 1 {
-		w.Digest = "" // see genC06: the library's own output embeds an address
+		w.Digest, w.RDigest = "", "" // see genC06: the library's own output embeds an address
 	}
 	w.Faults = map[string]int64{}
 	for k, v := range out.X.Faults {
